@@ -375,6 +375,10 @@ func (r *resolver) applyDeviation(y *Module, d *Deviation) error {
 	// violations are errors, not silent ignores.
 	hasDets, _ := target.(HasDetails)
 	hasType, _ := target.(Leafable)
+	if _, isAny := target.(*Any); isAny {
+		// anydata has neither type nor units nor default
+		hasType = nil
+	}
 	hasListDets, _ := target.(HasListDetails)
 	hasMusts, _ := target.(HasMusts)
 	asList, _ := target.(*List)
@@ -440,6 +444,9 @@ func (r *resolver) applyDeviation(y *Module, d *Deviation) error {
 			}
 			if hasType.HasDefault() {
 				return fmt.Errorf("default already set on %s", d.Ident())
+			}
+			if _, isLeafList := target.(*LeafList); !isLeafList && len(d.Add.Default()) > 1 {
+				return fmt.Errorf("deviation %s - only a leaf-list takes more than one default", d.Ident())
 			}
 			for _, deflt := range d.Add.Default() {
 				hasType.addDefault(deflt)
